@@ -460,6 +460,46 @@ impl Tracker {
             }
         }
     }
+    /// several scenes in ONE request (BatchVisualSort); VisualSort gets the calls one by one. One result per call.
+    fn predict_batch(&mut self, calls: &[(u64, Vec<VisualSortObservation>)]) -> Vec<Option<Vec<SortTrack>>> {
+        match self {
+            Tracker::Vs(t) => calls.iter().map(|(s, obs)| guarded(|| t.predict_with_scene(*s, obs))).collect(),
+            Tracker::Bvs(t) => {
+                let (mut batch, res) = PredictionBatchRequest::<VisualSortObservation>::new();
+                let mut nscenes = 0;
+                for (s, obs) in calls {
+                    for o in obs {
+                        batch.add(*s, o.clone());
+                    }
+                    if !obs.is_empty() {
+                        nscenes += 1;
+                    }
+                }
+                let mut out: Vec<Option<Vec<SortTrack>>> = calls.iter().map(|(_, obs)| if obs.is_empty() { Some(vec![]) } else { None }).collect();
+                if nscenes == 0 || guarded(|| t.predict(batch)).is_none() {
+                    return out;
+                }
+                let t0 = std::time::Instant::now();
+                let mut got = 0;
+                while got < nscenes {
+                    if res.ready() {
+                        let (s, tracks) = res.get();
+                        for (ci, (sc, obs)) in calls.iter().enumerate() {
+                            if *sc == s && !obs.is_empty() {
+                                out[ci] = Some(tracks.clone());
+                            }
+                        }
+                        got += 1;
+                    } else if t0.elapsed().as_secs() > 20 {
+                        break;
+                    } else {
+                        std::thread::sleep(std::time::Duration::from_micros(200));
+                    }
+                }
+                out
+            }
+        }
+    }
     fn wasted(&mut self, scene: u64, n: usize) -> Vec<VTrack> {
         match self {
             Tracker::Vs(t) => {
@@ -474,10 +514,16 @@ impl Tracker {
     }
 }
 
-/// One predict call on a visual tracker with everything the checks need printed around it: the facts of the detections,
-/// the oracle tables (when `tables`), the call line with the records, the tracks touched. None = the history stops here.
+/// Phase 1 of a predict call on a visual tracker: the facts of the detections and (when `tables`) the oracle tables, printed
+/// BEFORE the call. None = the history stops here (already printed why).
+struct Prepared {
+    epoch: usize,
+    det_s: Vec<String>,
+    boxes: Vec<Universal2DBox>,
+}
+
 #[allow(clippy::too_many_arguments)]
-fn visual_call(
+fn visual_prepare(
     tracker: &mut Tracker,
     spec: &Spec,
     raw_metric: &VisualMetric,
@@ -488,7 +534,7 @@ fn visual_call(
     dets: &Vec<Det>,
     tables: bool,
     strict: bool,
-) -> Option<Vec<SortTrack>> {
+) -> Option<Prepared> {
     let k = spec.k;
     let use_own = spec.owncol + spec.ownuse > 0.0;
     let boxes: Vec<Universal2DBox> = dets.iter().map(bbox_of).collect();
@@ -578,32 +624,66 @@ fn visual_call(
         println!("call k={} j={} scene={} epoch={} dets={} recs=BADCASE", k, j, scene, epoch, det_s.join(";"));
         return None;
     }
-    // ---- the call itself
-    let feats: Vec<Option<Vec<f32>>> = dets.iter().map(|d| d.feat.clone()).collect();
-    let obs: Vec<VisualSortObservation> = dets
-        .iter()
-        .enumerate()
-        .map(|(i, d)| VisualSortObservation::new(feats[i].as_deref(), d.q, boxes[i].clone(), Some(d.uid as i64)))
-        .collect();
-    let recs = guarded(|| tracker.predict(*scene, &obs));
+    Some(Prepared { epoch, det_s, boxes })
+}
+
+/// Phase 2: the call line with the records and the tracks touched.
+fn visual_finish(
+    tracker: &mut Tracker,
+    spec: &Spec,
+    dict: &FeatDict,
+    featq: &HashMap<Vec<u32>, Vec<u32>>,
+    j: usize,
+    scene: &u64,
+    p: &Prepared,
+    recs: Option<Vec<SortTrack>>,
+) -> Option<Vec<SortTrack>> {
+    let k = spec.k;
     match &recs {
         None => {
-            println!("call k={} j={} scene={} epoch={} dets={} recs=PANIC", k, j, scene, epoch, det_s.join(";"));
+            println!("call k={} j={} scene={} epoch={} dets={} recs=PANIC", k, j, scene, p.epoch, p.det_s.join(";"));
             return None;
         }
         Some(recs) => {
             let rs: Vec<String> = recs.iter().map(rec_str).collect();
-            println!("call k={} j={} scene={} epoch={} after={} dets={} recs={}", k, j, scene, epoch, tracker.epoch(*scene), det_s.join(";"), rs.join(";"));
+            println!("call k={} j={} scene={} epoch={} after={} dets={} recs={}", k, j, scene, p.epoch, tracker.epoch(*scene), p.det_s.join(";"), rs.join(";"));
         }
     }
     // tracks touched by this call (all tracks are dumped once more at the end of the history)
     let touched: Vec<u64> = recs.as_ref().map(|r| r.iter().map(|x| x.id).collect()).unwrap_or_default();
     for t in tracker.tracks(spec.shards) {
         if touched.contains(&t.get_track_id()) {
-            dump_vtrack(&format!("trk {} {}", k, j), &t, &dict, &featq);
+            dump_vtrack(&format!("trk {} {}", k, j), &t, dict, featq);
         }
     }
     recs
+}
+
+fn observations_of<'a>(dets: &'a [Det], boxes: &[Universal2DBox]) -> Vec<VisualSortObservation<'a>> {
+    dets.iter()
+        .enumerate()
+        .map(|(i, d)| VisualSortObservation::new(d.feat.as_deref(), d.q, boxes[i].clone(), Some(d.uid as i64)))
+        .collect()
+}
+
+/// One predict call: prepare, predict, finish. None = the history stops here.
+#[allow(clippy::too_many_arguments)]
+fn visual_call(
+    tracker: &mut Tracker,
+    spec: &Spec,
+    raw_metric: &VisualMetric,
+    dict: &mut FeatDict,
+    featq: &mut HashMap<Vec<u32>, Vec<u32>>,
+    j: usize,
+    scene: &u64,
+    dets: &Vec<Det>,
+    tables: bool,
+    strict: bool,
+) -> Option<Vec<SortTrack>> {
+    let p = visual_prepare(tracker, spec, raw_metric, dict, featq, j, scene, dets, tables, strict)?;
+    let obs = observations_of(dets, &p.boxes);
+    let recs = guarded(|| tracker.predict(*scene, &obs));
+    visual_finish(tracker, spec, dict, featq, j, scene, &p, recs)
 }
 
 fn raw_metric_of(spec: &Spec) -> VisualMetric {
@@ -641,11 +721,42 @@ fn run_visual(spec: &Spec, tables: bool, strict: bool) {
     let mut dict: FeatDict = HashMap::new();
     let mut featq: HashMap<Vec<u32>, Vec<u32>> = HashMap::new();
     let mut scenes: Vec<u64> = vec![];
-    for (j, (scene, dets)) in spec.calls.iter().enumerate() {
-        if !scenes.contains(scene) {
-            scenes.push(*scene);
+    // batches: consecutive calls (distinct scenes) submitted as ONE request to BatchVisualSort (spec field grp=)
+    let groups: Vec<usize> = if spec.grp.is_empty() || spec.trk != "bvs" { vec![1; spec.calls.len()] } else { spec.grp.clone() };
+    let mut j0 = 0usize;
+    'outer: for g in groups {
+        let idx: Vec<usize> = (j0..(j0 + g).min(spec.calls.len())).collect();
+        j0 += g;
+        for j in &idx {
+            if !scenes.contains(&spec.calls[*j].0) {
+                scenes.push(spec.calls[*j].0);
+            }
         }
-        if visual_call(&mut tracker, spec, &raw_metric, &mut dict, &mut featq, j, scene, dets, tables, strict).is_none() {
+        if idx.len() == 1 {
+            let (scene, dets) = &spec.calls[idx[0]];
+            if visual_call(&mut tracker, spec, &raw_metric, &mut dict, &mut featq, idx[0], scene, dets, tables, strict).is_none() {
+                break;
+            }
+            continue;
+        }
+        let mut prepared = vec![];
+        for j in &idx {
+            let (scene, dets) = &spec.calls[*j];
+            match visual_prepare(&mut tracker, spec, &raw_metric, &mut dict, &mut featq, *j, scene, dets, tables, strict) {
+                Some(p) => prepared.push(p),
+                None => break 'outer,
+            }
+        }
+        let calls: Vec<(u64, Vec<VisualSortObservation>)> =
+            idx.iter().zip(prepared.iter()).map(|(j, p)| (spec.calls[*j].0, observations_of(&spec.calls[*j].1, &p.boxes))).collect();
+        let results = tracker.predict_batch(&calls);
+        let mut stop = false;
+        for ((j, p), r) in idx.iter().zip(prepared.iter()).zip(results.into_iter()) {
+            if visual_finish(&mut tracker, spec, &dict, &featq, *j, &spec.calls[*j].0, p, r).is_none() {
+                stop = true;
+            }
+        }
+        if stop {
             break;
         }
     }
@@ -656,7 +767,7 @@ fn run_visual(spec: &Spec, tables: bool, strict: bool) {
     let r = guarded(|| {
         let mut all = vec![];
         for s in &scenes {
-            all.extend(tracker.wasted(*s, spec.idle + 2));
+            all.extend(tracker.wasted(*s, spec.idle + spec.hist + 2));
         }
         all
     });
@@ -699,32 +810,95 @@ fn run_visual(spec: &Spec, tables: bool, strict: bool) {
     println!("end {}", k);
 }
 
+enum STracker {
+    S(Sort),
+    B(similari::prelude::BatchSort),
+}
+
+impl STracker {
+    fn predict(&mut self, scene: u64, boxes: &[(Universal2DBox, Option<i64>)]) -> Vec<SortTrack> {
+        match self {
+            STracker::S(t) => t.predict_with_scene(scene, boxes),
+            STracker::B(t) => {
+                if boxes.is_empty() {
+                    return vec![]; // the batch API cannot submit a scene without detections
+                }
+                let (mut batch, res) = PredictionBatchRequest::<(Universal2DBox, Option<i64>)>::new();
+                for b in boxes {
+                    batch.add(scene, b.clone());
+                }
+                t.predict(batch);
+                let t0 = std::time::Instant::now();
+                loop {
+                    if res.ready() {
+                        return res.get().1;
+                    } else if t0.elapsed().as_secs() > 20 {
+                        panic!("no result from the voting thread within 20 s");
+                    }
+                    std::thread::sleep(std::time::Duration::from_micros(200));
+                }
+            }
+        }
+    }
+    fn epoch(&self, scene: u64) -> usize {
+        match self {
+            STracker::S(t) => t.current_epoch_with_scene(scene),
+            STracker::B(t) => t.current_epoch_with_scene(scene),
+        }
+    }
+    fn tracks(&self, shards: usize) -> Vec<STrack> {
+        let mut ts: Vec<STrack> = vec![];
+        let mut grab = |store: &similari::store::TrackStore<SortAttributes, SortMetric, Universal2DBox>| {
+            for s in 0..shards {
+                let g = store.get_store(s);
+                for (_, t) in g.iter() {
+                    ts.push(t.clone());
+                }
+            }
+        };
+        match self {
+            STracker::S(t) => grab(&t.get_main_store()),
+            STracker::B(t) => grab(&t.get_main_store()),
+        }
+        ts.sort_by_key(|t| t.get_track_id());
+        ts
+    }
+    fn expire_and_collect(&mut self, scene: u64, n: usize) -> Vec<STrack> {
+        match self {
+            STracker::S(t) => {
+                t.skip_epochs_for_scene(scene, n);
+                t.wasted()
+            }
+            STracker::B(t) => {
+                t.skip_epochs_for_scene(scene, n);
+                t.wasted()
+            }
+        }
+    }
+}
+
 fn run_sort(spec: &Spec) {
     println!("spec {}", spec.to_line());
     let k = spec.k;
-    let mut tracker = Sort::new(
-        spec.shards,
-        spec.hist,
-        spec.idle,
-        match spec.pos_iou {
-            None => PositionalMetricType::Mahalanobis,
-            Some(t) => PositionalMetricType::IoU(t),
-        },
-        spec.minconf,
-        None,
-        1.0 / 20.0,
-        1.0 / 160.0,
-    );
+    let method = match spec.pos_iou {
+        None => PositionalMetricType::Mahalanobis,
+        Some(t) => PositionalMetricType::IoU(t),
+    };
+    let mut tracker = if spec.trk == "bsort" {
+        STracker::B(similari::prelude::BatchSort::new(spec.shards, 1 + (spec.k % 2), spec.hist, spec.idle, method, spec.minconf, None, 1.0 / 20.0, 1.0 / 160.0))
+    } else {
+        STracker::S(Sort::new(spec.shards, spec.hist, spec.idle, method, spec.minconf, None, 1.0 / 20.0, 1.0 / 160.0))
+    };
     let mut scenes: Vec<u64> = vec![];
     for (j, (scene, dets)) in spec.calls.iter().enumerate() {
         if !scenes.contains(scene) {
             scenes.push(*scene);
         }
         let boxes: Vec<(Universal2DBox, Option<i64>)> = dets.iter().map(|d| (bbox_of(d), Some(d.uid as i64))).collect();
-        let epoch = tracker.current_epoch_with_scene(*scene) + 1;
+        let epoch = tracker.epoch(*scene) + 1;
         let det_s: Vec<String> = dets.iter().map(|d| format!("{}:0:0:0:-", d.uid)).collect();
         let touched: Vec<u64>;
-        match guarded(|| tracker.predict_with_scene(*scene, &boxes)) {
+        match guarded(|| tracker.predict(*scene, &boxes)) {
             None => {
                 println!("call k={} j={} scene={} epoch={} dets={} recs=PANIC", k, j, scene, epoch, det_s.join(";"));
                 break;
@@ -735,16 +909,7 @@ fn run_sort(spec: &Spec) {
                 println!("call k={} j={} scene={} epoch={} dets={} recs={}", k, j, scene, epoch, det_s.join(";"), rs.join(";"));
             }
         }
-        let store = tracker.get_main_store();
-        let mut ts: Vec<STrack> = vec![];
-        for s in 0..spec.shards {
-            let g = store.get_store(s);
-            for (_, t) in g.iter() {
-                ts.push(t.clone());
-            }
-        }
-        ts.sort_by_key(|t| t.get_track_id());
-        for t in ts {
+        for t in tracker.tracks(spec.shards) {
             if !touched.contains(&t.get_track_id()) {
                 continue;
             }
@@ -765,8 +930,7 @@ fn run_sort(spec: &Spec) {
     let r = guarded(|| {
         let mut all = vec![];
         for s in &scenes {
-            tracker.skip_epochs_for_scene(*s, spec.idle + 2);
-            all.extend(tracker.wasted());
+            all.extend(tracker.expire_and_collect(*s, spec.idle + spec.hist + 2));
         }
         all
     });
@@ -793,7 +957,7 @@ fn run_sort(spec: &Spec) {
 }
 
 fn run_spec(spec: &Spec, tables: bool, strict: bool) {
-    if spec.trk == "sort" {
+    if spec.trk == "sort" || spec.trk == "bsort" {
         run_sort(spec)
     } else {
         run_visual(spec, tables, strict)
@@ -859,7 +1023,7 @@ fn gen_c13(k: usize, rng: &mut Rng, tier_long: bool) -> Spec {
     let pfeat = *rng.pick(&[100u64, 100, 90, 70, 50, 0]);
     let mut uid: u32 = 1;
     if mode >= 8 {
-        s.trk = "sort".into();
+        s.trk = if rng.chance(1, 2) { "bsort".into() } else { "sort".into() };
     } else if rng.chance(1, 8) {
         s.trk = "bvs".into(); // BatchVisualSort, one scene per batch, used synchronously
     }
@@ -1129,15 +1293,32 @@ fn gen_c04(k: usize, rng: &mut Rng) -> Spec {
         1 => (1..=s.idle + 1).map(|g| (g, 100.0f32)).collect(),                           // never binds
         _ => (1..=s.idle + 1).map(|g| (g, *rng.pick(&[0.125f32, 0.25, 0.5, 1.0]) * g as f32)).collect(), // may bind
     };
+    // own-area thresholds (use only / collect only / both, small): the share a detection gets depends on ITS scene's boxes only
+    let own_on = if s.trk == "bvs" { rng.chance(2, 3) } else { rng.chance(1, 3) };
+    if own_on {
+        match rng.below(4) {
+            0 | 1 => s.ownuse = *rng.pick(&[0.25f32, 0.5, 0.75]),
+            2 => s.owncol = *rng.pick(&[0.25f32, 0.5, 0.75]),
+            _ => {
+                s.ownuse = *rng.pick(&[0.25f32, 0.5, 0.75]);
+                s.owncol = *rng.pick(&[0.25f32, 0.5]);
+            }
+        }
+    }
     let nscenes = 2 + rng.below(3) as usize;
-    let nobj = 1 + rng.below(3) as usize;
+    let nobj = if own_on { 2 + rng.below(2) as usize } else { 1 + rng.below(3) as usize };
+    // how the objects of a scene stand: free (45 apart) or occluding one another (8 / 14 apart): with own-area thresholds one
+    // scene's features are usable and another scene's are not
+    let mut layouts = vec![45.0f32, 8.0, 14.0, 45.0];
+    rng.shuffle(&mut layouts);
+    let spacing: Vec<f32> = (0..nscenes).map(|i| layouts[i % 4]).collect();
     let dim = *rng.pick(&[2usize, 4, 8]);
     let pfeat = *rng.pick(&[100u64, 85, 50]);
     let ncalls = 6 + rng.below(20) as usize;
     // one set of object tracks (positions, velocities, identities) shared by all scenes, look-alike identities per scene
     let mut ident: Vec<Vec<f32>> = vec![];
     let mut motion: Vec<(f32, f32, f32, f32)> = vec![];
-    for ob in 0..nobj {
+    for _ob in 0..nobj {
         let mut v = vec![];
         for _ in 0..dim {
             v.push(rng.dyadic(-8, 8, 2));
@@ -1146,7 +1327,7 @@ fn gen_c04(k: usize, rng: &mut Rng) -> Spec {
             v[0] = 1.0;
         }
         ident.push(v);
-        motion.push((10.0 + ob as f32 * 45.0, 10.0 + rng.dyadic(0, 16, 2), rng.dyadic(-8, 8, 2), rng.dyadic(-4, 4, 2)));
+        motion.push((10.0, 10.0 + rng.dyadic(0, 16, 2), rng.dyadic(-8, 8, 2), rng.dyadic(-4, 4, 2)));
     }
     let mut step: Vec<usize> = vec![0; nscenes];
     let mut uid: u32 = 1;
@@ -1174,7 +1355,7 @@ fn gen_c04(k: usize, rng: &mut Rng) -> Spec {
                 continue;
             }
             let (x0, y0, vx, vy) = motion[ob];
-            let l = x0 + vx * i as f32 + rng.dyadic(-2, 2, 2);
+            let l = x0 + ob as f32 * spacing[scene] + vx * i as f32 + rng.dyadic(-2, 2, 2);
             let t = y0 + vy * i as f32;
             let w = 20.0 + rng.dyadic(0, 4, 2);
             let h = 30.0 + rng.dyadic(0, 4, 2);
@@ -1194,6 +1375,22 @@ fn gen_c04(k: usize, rng: &mut Rng) -> Spec {
             uid += 1;
         }
         s.calls.push((scene as u64, dets));
+    }
+    if s.trk == "bvs" && rng.chance(5, 6) {
+        // multi-scene BATCHES: consecutive calls are put into one request as long as their scenes are distinct
+        let mut grp: Vec<usize> = vec![];
+        let mut cur: Vec<u64> = vec![];
+        for (sc, _) in s.calls.iter() {
+            if cur.contains(sc) || cur.len() >= 4 || (!cur.is_empty() && rng.chance(1, 4)) {
+                grp.push(cur.len());
+                cur.clear();
+            }
+            cur.push(*sc);
+        }
+        if !cur.is_empty() {
+            grp.push(cur.len());
+        }
+        s.grp = grp;
     }
     s
 }
